@@ -82,6 +82,12 @@ CLAIMED = {
         text="After every outcome of two consecutive trials (accepted, rejected, failed; displacement, cell and exchange moves; FixAtoms; initial magnetic moments): the energy the simulation reports equals the from-scratch energy of the current configuration, so does the reference energy for the next test; remembered positions and cell equal the current ones; cached calculator results belong to the cached configuration; exactly one evaluation per trial that reached its criteria and none to report the energy. For calculators with per-atom internal state the call precondition 'internals match the atom count' fails after a rejected exchange followed by a count-preserving trial: recorded as known finding F8, so this is NOT a proof of the whole property.",
         note="criteria by contract (one evaluation, C02); operations/checks opaque; ASE Atoms/Calculator contracts trusted; Hamiltonian moves excluded (statement excepts them); two-trial histories, longer ones by the invariant.",
         design="§7 C04"),
+    "C03": dict(
+        category="other",
+        technique="contract-based deductive verification: real drivers and moves (displacement, composite displacement, cell, exchange, Hamiltonian) on the Atoms heap model with symbolic-length arrays, extra per-atom arrays and FixAtoms; an arbitrary first trial, a snapshot, then the trial under scrutiny through the real step/revert_state; every array compared with the snapshot at a generic row; known findings F4, F5, F6 recorded; native deep-snapshot stand-in",
+        text="After every rejected or failed trial (no eligible particle, all attempts vetoed) of Canonical+DisplacementMove (also a + composite), Isobaric+CellMove (any scale_atoms), GrandCanonical+ExchangeMove (insertion and deletion) and HamiltonianCanonical+HamiltonianDisplacementMove: atom count, set of per-atom arrays, every row of every array (positions, momenta, tags, charges, custom 2-d, numbers), cell and constraints equal the snapshot; exchange bookkeeping empty, particle_delta 0, particle counter, labels and pre-selections untouched. Three recorded defects remain (constraints after a rejected deletion F4, arrays created by extend F6, plain insert+delete composite F5), so this is NOT a proof of the whole property.",
+        note="ASE heap contracts trusted; criteria by contract; operations, integrators, distributions, checks opaque; histories: arbitrary first trial + invariant.",
+        design="§7 C03"),
 }
 PENDING_REASON = "check not yet registered in this revision (under construction; see DESIGN.md §0/§7 for the plan)"
 
